@@ -13,7 +13,7 @@ LEVEL = 'exploration'
 EXHAUSTIVE = True
 RULE = (
     'raw histories with 1-3 times over ALL 24 variable trees of nesting <= 2 '
-    'on keys {a, b}; cell values {0, False, "", [], 1.5, "x", [1, 2], a '
+    'on keys {a, ab} (+ 3 shapes with a nested variable named time); cell values {0, False, "", [], 1.5, "x", [1, 2], a '
     'quantity}: every assignment when there are <= 4 cells, otherwise '
     'every assignment with <= 2 cells deviating from a filler; ordered '
     'query sets over ALL node paths (stores and variables) plus one absent '
@@ -41,12 +41,17 @@ def value(v):
 
 
 def tree_shapes():
+    """Keys 'a' and 'ab' (one name is a prefix of the other), plus shapes
+    with a nested variable that is itself called 'time'."""
     leaf = None
-    d1 = [{'a': leaf}, {'b': leaf}, {'a': leaf, 'b': leaf}]
+    d1 = [{'a': leaf}, {'ab': leaf}, {'a': leaf, 'ab': leaf}]
     out = []
-    for keys in (('a',), ('b',), ('a', 'b')):
+    for keys in (('a',), ('ab',), ('a', 'ab')):
         for combo in itertools.product([leaf] + d1, repeat=len(keys)):
             out.append(dict(zip(keys, combo)))
+    out.append({'a': {'time': leaf}})
+    out.append({'a': {'time': leaf, 'ab': leaf}})
+    out.append({'g': {'time': leaf}, 'a': leaf})
     return out
 
 
